@@ -381,30 +381,84 @@ theorem nullishNode_ok (a b : E) (wa : wfGo a = true) (wb : wfGo b = true) :
   simp only [wfGo, Bool.and_eq_true, wfGo_groupExpr]
   exact ⟨⟨⟨leftFits_of_fits (fits_groupExpr _ _), fits_groupExpr _ _⟩, wa⟩, wb⟩
 
-theorem toNullish_ok (c x y r : E) (h : CondIn c x y) (hr : toNullish c x y = .yes r) : wfGo r = true ∧ r.prec = 2 := by
+theorem chainBase_eq (e : E) : (chainBase e).1 = e.chainRoot ∧ (chainBase e).2 = e.isLink := by
+  induction e using E.ind with
+  | hcall f args ih _ => exact ⟨by simp only [chainBase, E.chainRoot]; exact ih.1, rfl⟩
+  | hdot x n ih => exact ⟨by simp only [chainBase, E.chainRoot]; exact ih.1, rfl⟩
+  | hindex x y ih _ => exact ⟨by simp only [chainBase, E.chainRoot]; exact ih.1, rfl⟩
+  | _ => exact ⟨rfl, rfl⟩
+
+theorem isEqualExpr_var (v : String) (r : E) (h : isEqualExpr (.var v) r = true) : r.inner = .var v := by
+  unfold isEqualExpr at h
+  simp only [E.inner] at h
+  split at h
+  · rename_i x y hx hy
+    injection hx with hx
+    have : x = y := by simpa using h
+    subst hx this
+    exact hy
+  · cases h
+
+/-- the chain of `a==null?undefined:a.b.c ⇒ a?.b.c` is a chain on the tested variable -/
+theorem optChain_ok (v : String) (right : E) (hw : wfGo right = true)
+    (h : ((chainBase right).2 && isEqualExpr (.var v) (chainBase right).1) = true) :
+    wfGo (.opt v right) = true ∧ 2 ≤ (E.opt v right).prec := by
+  simp only [Bool.and_eq_true] at h
+  obtain ⟨h1, h2⟩ := chainBase_eq right
+  rw [h1] at h
+  rw [h2] at h
+  have hin := isEqualExpr_var v _ h.2
+  have hcv : right.chainVar? = some v := by
+    simp only [E.chainVar?, h.1, if_true, E.rootVar?, hin]
+  refine ⟨by simp only [wfGo, Bool.and_eq_true, beq_iff_eq]; exact ⟨hcv, hw⟩, ?_⟩
+  have := prec_link right h.1
+  simp only [E.prec]
+  pomega
+
+theorem toNullish_ok (c x y r : E) (h : CondIn c x y) (hr : toNullish c x y = .yes r) : wfGo r = true ∧ 2 ≤ r.prec := by
+  have two : ∀ a b, wfGo a = true → wfGo b = true →
+      wfGo (.bin .nullish (groupExpr a BOp.nullish.left) (groupExpr b BOp.nullish.right)) = true ∧
+      2 ≤ (E.bin .nullish (groupExpr a BOp.nullish.left) (groupExpr b BOp.nullish.right)).prec := by
+    intro a b wa wb
+    have := nullishNode_ok a b wa wb
+    exact ⟨this.1, by rw [this.2]; exact Nat.le_refl _⟩
   unfold toNullish at hr
   cases hi : isUndefinedOrNullVar c with
   | none => simp [hi] at hr
   | some vn =>
     obtain ⟨v, neg⟩ := vn
     simp only [hi] at hr
+    have fin : ∀ left right : E, wfGo right = true →
+        (if isUndefined left = true then
+          (if ((chainBase right).2 && isEqualExpr (.var v) (chainBase right).1) = true then
+            (if (v == "undefined" || v == "NaN") = true then Nullish.unmodelled else .yes (.opt v right))
+           else .no)
+         else Nullish.no) = .yes r → wfGo r = true ∧ 2 ≤ r.prec := by
+      intro left right hwr hq
+      by_cases hu : isUndefined left = true
+      · rw [if_pos hu] at hq
+        by_cases hcb : ((chainBase right).2 && isEqualExpr (.var v) (chainBase right).1) = true
+        · rw [if_pos hcb] at hq
+          by_cases hbad : (v == "undefined" || v == "NaN") = true
+          · rw [if_pos hbad] at hq; cases hq
+          · rw [if_neg hbad] at hq
+            injection hq with hq; subst hq
+            exact optChain_ok v right hwr hcb
+        · rw [if_neg hcb] at hq; cases hq
+      · rw [if_neg hu] at hq; cases hq
     cases neg
     · simp only [Bool.false_eq_true, if_false] at hr
       by_cases h1 : isEqualExpr (var v) y = true
       · rw [if_pos h1] at hr; injection hr with hr; subst hr
-        exact nullishNode_ok y x h.wy h.wx
+        exact two y x h.wy h.wx
       · rw [if_neg h1] at hr
-        split at hr
-        · split at hr <;> cases hr
-        · cases hr
+        exact fin x y h.wy hr
     · simp only [if_true] at hr
       by_cases h1 : isEqualExpr (var v) x = true
       · rw [if_pos h1] at hr; injection hr with hr; subst hr
-        exact nullishNode_ok x y h.wx h.wy
+        exact two x y h.wx h.wy
       · rw [if_neg h1] at hr
-        split at hr
-        · split at hr <;> cases hr
-        · cases hr
+        exact fin y x h.wx hr
 
 theorem callMerge_ok (c x y r : E) (h : CondIn c x y) (hr : callMerge c x y = some r) : wfGo r = true ∧ r.prec = 17 := by
   unfold callMerge at hr
@@ -516,7 +570,7 @@ theorem optNode_ok (g v : Bool) : RwOk (optNode g v) := by
     simp only [wfGo, Bool.and_eq_true] at hw
     obtain ⟨⟨⟨⟨⟨fc, fx⟩, fy⟩, wc⟩, wx⟩, wy⟩ := hw
     exact optCondN_ok g v _ _ _ p r (condNormalize_ok c x y ⟨fc, fx, fy, wc, wx, wy⟩) hr
-  refine ⟨?_, ?_, ?_⟩
+  refine ⟨?_, ?_, ?_, ?_⟩
   · intro e p r _ hw hr
     cases e with
     | cond c x y => exact (hcond c x y p r hw hr).1
@@ -537,6 +591,11 @@ theorem optNode_ok (g v : Bool) : RwOk (optNode g v) := by
     cases e with
     | cond c x y => simp [isPlain, assignable, E.inner] at hpa
     | unary op x => simp [isPlain, assignable, E.inner] at hpa
+    | _ => simp only [optNode] at hr; injection hr with hr; exact hr.symm
+  · intro e p r hroot hr
+    cases e with
+    | cond c x y => simp [E.rootVar?, E.chainRoot, E.inner] at hroot
+    | unary op x => simp [E.rootVar?, E.chainRoot, E.inner] at hroot
     | _ => simp only [optNode] at hr; injection hr with hr; exact hr.symm
 
 /-- the traversal with all rewrites (`minifyExpr` with `optimizeCondExpr` / `optimizeUnaryExpr` at every node): the output is
